@@ -302,10 +302,10 @@ func runC05(c *Ctx) {
 					}
 				}
 			case ssa.CallInstruction:
-				if strings.HasPrefix(callName(x), "sort.") || strings.HasPrefix(callName(x), "slices.Sort") {
+				if n := callName(x); (strings.HasPrefix(n, "sort.") || strings.HasPrefix(n, "slices.Sort")) && !strings.Contains(n, "Stable") {
 					for _, a := range x.Common().Args {
 						if derivesFrom(a, func(v ssa.Value) bool { return loadedFromField(v, "Router", "routes") }) {
-							c.ob("C05-R4", fnKey(fn)+"#sorts-route-table", ins.Pos(), false, "the route table is re-ordered: equal-specificity matches no longer go to the earlier declaration")
+							c.ob("C05-R4", fnKey(fn)+"#sorts-route-table", ins.Pos(), false, "the route table is re-ordered by a sort that is not stable: equal-specificity matches no longer go to the earlier declaration (sort.Slice happens to keep the order of up to 12 elements, so it shows only from the 13th route of a method on)")
 						}
 					}
 				}
@@ -413,7 +413,7 @@ func runC05(c *Ctx) {
 				}
 			}
 		}
-		c.ob("C05-R4", serverPkg+".Router.Match#specificity-counts-parameter-segments", m.Pos(), found && !onMaps, "specificity is measured as the size of the name->value binding maps: a pattern that uses a parameter name twice (/cmp/:id/:id) binds one name, so it counts as more specific than it is and ties with /cmp/latest/:id - the tie then goes to the earlier declaration")
+		c.ob("C05-R4", serverPkg+".Router.Match#specificity-counts-parameter-segments", m.Pos(), !onMaps, "specificity is measured as the size of the name->value binding maps: a pattern that uses a parameter name twice (/cmp/:id/:id) binds one name, so it counts as more specific than it is and ties with /cmp/latest/:id - the tie then goes to the earlier declaration")
 		c.ob("C05-R4", serverPkg+".Router.Match#strict-specificity-comparison", m.Pos(), found && okStrict, "the best-candidate update is not a strict parameter-count comparison: with equal specificity a later declaration replaces the earlier one")
 		// no early return inside the candidate loop (every candidate is scanned)
 		early := false
